@@ -143,6 +143,10 @@ def validate_reindex_contract(rv_name, method_variant, expected_variant, func_va
         if method is None:
             # planning not finished yet: an unresolved strategy is allowed only here
             out.append(("user_choice_kept", z3.Implies(z3.BoolVal(user is not None), _bw_is(bw, user))))
+            if rv_name == "RS_None":
+                # a caller's ReindexStrategy(blockwise=None) is never handed on: groupby_reduce may later call
+                # set_blockwise_for_numpy() on the returned object (frame obligation of C14)
+                out.append(("fresh_when_unresolved", z3.BoolVal(res is not e["reindex"])))
             return out
         out.append(("resolved", z3.Not(_bw_is(bw, None))))
         out.append(("user_choice_kept", z3.Implies(z3.BoolVal(user is not None), _bw_is(bw, user))))
